@@ -804,6 +804,7 @@ func codecBlockCase(c *Ctx, b *nom.AccountBlock) {
 		codecRlpTree(c, data, "canonical")
 		v, kind := rlpVariant(c, data)
 		codecRlpTree(c, v, kind)
+		codecRlpTyped(c, b, data)
 	}
 	if data, err := b.Serialize(); err == nil && len(data) < 6000 {
 		codecDecodeBlock(c, data, "canonical")
